@@ -638,6 +638,20 @@ class PkgGen:
             m, local = self.module(pk, mn, usable)
             modules.append(m)
             avail += [(n_, q_, in_excl) for (n_, q_) in local]
+        # parameters named with two leading underscores behind `*` (mypy flags them `pos_only` whatever their kind) and an
+        # un-annotated function whose only `return`s are the implicit ones of lambdas.  No random draws.
+        m0 = modules[0]
+        if not (set(m0["pkg"] + [m0["name"]]) & {"test", "tests", "docs"}) and "zz_gather" not in self.global_used:
+            self.global_used.update({"zz_gather", "zz_hook"})
+            par = lambda n, k, a, d=None: {"name": n, "kind": k, "ann": a, "default": d, "doc": "", "doc_type": None}
+            base = {"kind": "function", "method_kind": None, "returns": None, "doc": "", "result_doc": "", "is_property": False,
+                    "result_doc_type": None, "rest_type_first": True}
+            m0["functions"].append({**base, "name": "zz_gather", "ret": ("None",),
+                                    "params": [par("first", "POSITION_OR_NAME", ("int",)), par("__items", "POSITIONAL_VARARG", ("int",)),
+                                               par("__strict", "NAME_ONLY", ("bool",), ("False", False)),
+                                               par("__extra", "NAMED_VARARG", ("str",))]})
+            m0["functions"].append({**base, "name": "zz_hook", "ret": None, "params": [],
+                                    "extra_body": ["zz_cb = lambda: 0", "zz_cb2 = lambda: ('a', True)", "zz_cb3 = lambda: None"]})
         # members of another module reached through the module object (`import a.b as m; m.f`, `m.C`): expression types
         # of every kind enter the tool's alias collection (a function reached this way aborted the run before c9b80ef).
         # Deterministic in the names (no random draws), so the streams of the other constructs do not move.
